@@ -239,6 +239,31 @@ theorem mlog_bounded'' (now f : Nat) (base new : Meta) (k : Int) (hk : new.prevM
     · rw [if_pos he]; exact ⟨hlen, Or.inr rfl⟩
     · rw [if_neg he]; exact ⟨(key _ hl).1, Or.inl (key _ hl).2⟩
 
+
+/-- whatever the length of the log before (e.g. after the bound was LOWERED), a commit that appends an entry leaves at most
+`k` entries: the trim keeps the newest `k`, it does not merely drop one -/
+theorem mlog_trimmed'' (now f : Nat) (base new : Meta) (k : Int) (hk : new.prevMax = some k) (h1 : 1 ≤ k)
+    (hne : ∀ e, new.mlog.getLast? = some e → (e.2 == f) = false) :
+    ((stamp now (some f) base new).mlog.length : Int) ≤ k ∧
+    (stamp now (some f) base new).mlog <:+ (new.mlog ++ [(base.lastUpdated, f)]) := by
+  have key : ∀ l : List (Nat × Nat),
+      (((if k ≥ 1 ∧ (l.length : Int) > k then l.drop (l.length - k.toNat) else l).length : Int) ≤ k) ∧
+      (if k ≥ 1 ∧ (l.length : Int) > k then l.drop (l.length - k.toNat) else l) <:+ l := by
+    intro l
+    split
+    · refine ⟨?_, List.drop_suffix _ _⟩
+      simp only [List.length_drop]
+      omega
+    · exact ⟨by omega, List.suffix_refl _⟩
+  cases hg : new.mlog.getLast? with
+  | none =>
+    simp only [stamp, hk, hg, Bool.false_eq_true, if_false]
+    exact key _
+  | some e =>
+    have he := hne e hg
+    simp only [stamp, hk, hg, he, Bool.false_eq_true, if_false]
+    exact key _
+
 /-- the fields `repoint` never touches -/
 def SameBut (s o : Snap) : Prop := s.id = o.id ∧ s.born = o.born ∧ s.seq = o.seq ∧ s.orig = o.orig ∧ s.ts = o.ts
 
